@@ -106,6 +106,79 @@ def instantiate_sub(base, sub, span, shared):
     return m
 
 
+def fhex(x):
+    x = float(x)
+    if x != x:
+        return 'nan'
+    if x in (float('inf'), float('-inf')):
+        return 'inf' if x > 0 else '-inf'
+    return x.hex()
+
+
+def instantiate_built_sub(fsic, sub, span, shared):
+    """A submodel built by fsic itself from a C01-grammar program (`fsic.build_model(fsic.parse_model(program))`), instrumented:
+    every `_evaluate` is logged and the values it leaves at t are RECORDED per (position, iteration) — the recording is what
+    instantiates the Coq model's `sev` oracle for this submodel (the linker's control flow is what K then compares)."""
+    base = fsic.build_model(fsic.parse_model(sub['program']))
+
+    class BuiltSub(base):
+        def _evaluate(self, t, *, errors='raise', catch_first_error=True, iteration=None, **kwargs):
+            d = self.__dict__
+            d['_evlog'].append(['pass', int(t), int(iteration)])
+            d['_shared'].append(['sub', d['_sid'], int(t), int(iteration)])
+            raised = None
+            try:
+                super()._evaluate(t, errors=errors, catch_first_error=catch_first_error, iteration=iteration, **kwargs)
+            except Exception as e:                  # e.g. IndexError: a lag / lead reaching outside the span
+                raised = e
+            pos = t if t >= 0 else t + len(self.span)
+            rec = d['_recorded'].setdefault(str(pos), {})
+            if int(iteration) in rec:
+                d['_rec_clash'] = True              # evaluated twice in one iteration (duplicate selection): not representable
+            try:
+                acts = [['set', i, fhex(d['_' + n][t])] for i, n in enumerate(self.names)]
+            except IndexError:
+                acts = []
+            if raised is not None:
+                # surfaces through the linker unchanged in class (the linker wraps nothing); marked so that the observation can
+                # tell it from an IndexError / KeyError of the linker's own code
+                cls = type(raised) if type(raised) in CAUSES.values() else RuntimeError
+                rec[int(iteration)] = acts + [['raise', CAUSE_TAG[cls.__name__]]]
+                raise cls(MARK) from raised
+            rec[int(iteration)] = acts
+
+        def solve_t_before(self, t, *, errors='raise', catch_first_error=True, iteration=None, **kwargs):
+            self.__dict__['_evlog'].append(['before', int(t), int(iteration)])
+
+        def solve_t_after(self, t, *, errors='raise', catch_first_error=True, iteration=None, **kwargs):
+            self.__dict__['_evlog'].append(['after', int(t), int(iteration)])
+
+    m = BuiltSub(span)
+    meta = {'names': list(m.names), 'check': [m.names.index(x) for x in m.check], 'endo': [m.names.index(x) for x in m.endogenous],
+            'lags': int(m.LAGS), 'leads': int(m.LEADS)}
+    want = {k: sub[k] for k in meta}
+    if meta != want:            # the generator's hand-written metadata must be what fsic derives from the program
+        raise AssertionError('built submodel metadata mismatch: fsic %r, generator %r' % (meta, want))
+    for i, row in enumerate(sub['vals']):
+        m.__dict__['_' + m.names[i]][:] = [unhex(x) for x in row]
+    m.__dict__['_status'][:] = sub['status']
+    m.__dict__['_iterations'][:] = sub['iters']
+    m.__dict__['_evlog'] = []
+    m.__dict__['_recorded'] = {}
+    m.__dict__['_rec_clash'] = False
+    m.__dict__['_shared'] = shared
+    m.__dict__['_sid'] = sub['id']
+    return m
+
+
+def recorded_passes(m):
+    """{position: [[actions of iteration 1], [iteration 2], ...]} from what an instrumented built submodel recorded"""
+    out = {}
+    for pos, rec in m.__dict__['_recorded'].items():
+        out[pos] = [rec.get(k, []) for k in range(1, max(rec) + 1)] if rec else []
+    return out
+
+
 def make_linker_class(base, nvars, check):
     names = ['L%d' % i for i in range(nvars)]
 
@@ -120,7 +193,8 @@ def make_linker_class(base, nvars, check):
         def _arr(self, c, i):
             if c == 0:
                 return self.__dict__['_L%d' % i]
-            return list(self.__dict__['submodels'].values())[c - 1].__dict__['_V%d' % i]
+            m = list(self.__dict__['submodels'].values())[c - 1]
+            return m.__dict__['_' + m.names[i]]          # scripted submodels: names are V0, V1, ...; built ones: their own
 
         def _run(self, t, acts):
             for a in acts:
@@ -187,7 +261,8 @@ def instantiate_linker(fsic, case):
     n = case['n']
     span = list(range(2000, 2000 + n))
     shared = []
-    subs = [instantiate_sub(fsic.BaseModel, sub, list(span), shared) for sub in case['subs']]
+    subs = [instantiate_built_sub(fsic, sub, list(span), shared) if sub.get('program') else
+            instantiate_sub(fsic.BaseModel, sub, list(span), shared) for sub in case['subs']]
     core = case['core']
     cls = make_linker_class(fsic.BaseLinker, core['nvars'], core['check'])
     if subs:
